@@ -38,7 +38,7 @@ def _prove(ctx, d, name, audited, observed):
     w = os.path.join(d, "Off_%s.v" % name)
     open(w, "w").write(HEAD + "Eval vm_compute in (show (state_offenders (%s) (%s))).\n" % (audited, observed))
     rc2, out2 = ctx["run"](["coqc", "-Q", ctx["coq"], "GenqlV", "-Q", ".", "", os.path.basename(w)], cwd=d, timeout=600)
-    strs = re.findall(r'"((?:[^"]|"")*)"%string', " ".join(out2.split()))
+    strs = re.findall(r'"((?:[^"]|"")*)"', " ".join(out2.split()))
     return False, "not in the audited inventory: " + " ; ".join(strs[:24])[:900]
 
 
